@@ -1,8 +1,418 @@
-//! W2 faulty-network arm: discrete-event network, replicator stub, node crash-restart.
+//! W2 faulty-network arm: a discrete-event network simulator (seeded latencies, drop, duplicate,
+//! reorder, partition/heal, node crash-restart) *generates* an explicit schedule of steps; the
+//! world executes it. Safety is judged at every delivery, bounded liveness after the last fault.
+
+use crate::disk;
+use crate::exec;
 use crate::harness::CaseOut;
+use crate::repl::{self, Concrete};
+use crate::rng::Rng;
+use crate::world::{call_core, mk_request, open_core, Req, Res, Step, World};
+use hypercore::Proof;
 use serde::{Deserialize, Serialize};
+
+#[derive(Clone, Debug)]
+pub enum Msg {
+    Request { to: usize, concrete: Concrete, nodes: u64 },
+    Response { to: usize, proof: Proof, wlen: u64, wbytes: u64, concrete: Concrete },
+}
+
 #[derive(Clone, Debug, Serialize, Deserialize, PartialEq, Default)]
 pub struct NetSpec {}
 pub fn run_net(_s: &NetSpec) -> CaseOut {
     CaseOut::default()
+}
+
+/// replica `to` issues a request derived from its current state
+pub fn do_send(w: &mut World, id: u32, to: usize, req: &Req) {
+    if to == 0 || to >= w.nodes.len() || w.nodes[to].core.is_none() {
+        return;
+    }
+    let Some(mut c) = repl::normalise(w, to, req) else {
+        w.stats.skipped += 1;
+        return;
+    };
+    c.seek = None; // seeks are exercised in the strict arm; here requests may be served late
+    c.straddle = false;
+    if let Some(j) = c.hash {
+        // keep to classes the strict arm shows are served
+        let rlen = w.nodes[to].model.length;
+        if crate::merkle::ft::left_span(j) / 2 < rlen && crate::merkle::ft::right_span(j) / 2 >= rlen {
+            return;
+        }
+    }
+    let mut nodes = 0;
+    if let Some(i) = c.block {
+        let call = w.begin_call(to, "missing_nodes");
+        let g = call_core!(w, to, |core| core.missing_nodes(i).await);
+        let r = Res::from(g);
+        w.end_call(call, matches!(r, Res::Ok(_)));
+        match r {
+            Res::Ok(v) => nodes = v,
+            other => {
+                let b = other.brief();
+                w.viol("C03.missing_nodes", format!("missing_nodes({i}) failed: {b}"));
+                return;
+            }
+        }
+    } else if let Some(j) = c.hash {
+        let call = w.begin_call(to, "missing_nodes");
+        let g = call_core!(w, to, |core| core.missing_nodes_from_merkle_tree_index(j).await);
+        let r = Res::from(g);
+        w.end_call(call, matches!(r, Res::Ok(_)));
+        match r {
+            Res::Ok(v) => nodes = v,
+            other => {
+                let b = other.brief();
+                w.viol("C03.missing_nodes", format!("missing_nodes(tree {j}) failed: {b}"));
+                return;
+            }
+        }
+    }
+    let cc = c.clone();
+    w.logf(|| format!("net send #{id} from n{to}: {cc:?} nodes {nodes}"));
+    w.pool.insert(id, Msg::Request { to, concrete: c, nodes });
+}
+
+/// the writer serves request `id` from its current state. The request was well-formed when it
+/// was sent; the replica may have moved on since, which only matters at delivery.
+pub fn do_serve(w: &mut World, id: u32) {
+    let Some(Msg::Request { to, concrete, nodes }) = w.pool.get(&id).cloned() else { return };
+    if w.nodes[0].core.is_none() {
+        return;
+    }
+    let (rb, rh, rs, ru) = mk_request(
+        concrete.block.map(|i| (i, nodes)),
+        concrete.hash.map(|j| (j, nodes)),
+        concrete.seek,
+        concrete.upgrade,
+    );
+    let call = w.begin_call(0, "create_proof");
+    let g = call_core!(w, 0, |core| core.create_proof(rb, rh, rs, ru).await);
+    let r = Res::from(g);
+    w.end_call(call, matches!(r, Res::Ok(_)));
+    let _ = w.drain(0);
+    w.stats.proofs_honest += 1;
+    w.logf(|| {
+        format!(
+            "net serve #{id}: {}",
+            match &r {
+                Res::Ok(Some(p)) => crate::world::proof_brief(p),
+                Res::Ok(None) => "None".into(),
+                o => o.brief(),
+            }
+        )
+    });
+    match r {
+        Res::Ok(Some(p)) => {
+            let cleared = concrete.block.map(|i| !w.nodes[0].model.has(i)).unwrap_or(false);
+            if cleared {
+                w.viol("C03.create", format!("writer served cleared block {:?}", concrete.block));
+            }
+            let (wlen, wbytes) = (w.truth.len(), w.truth.byte_length());
+            w.pool.insert(id, Msg::Response { to, proof: p, wlen, wbytes, concrete });
+        }
+        Res::Ok(None) => {
+            w.stats.proofs_none += 1;
+            w.pool.remove(&id);
+        }
+        Res::Panic(m) | Res::Hang(m) => {
+            w.viol("C03.create", format!("create_proof for {concrete:?} died: {m}"));
+            w.aborted = Some("writer died".into());
+        }
+        Res::Err(..) => {
+            // the request was honest when sent and the writer only grows: it must be servable
+            let b = r.brief();
+            w.viol("C03.create", format!("honest request {concrete:?} (nodes {nodes}) not served: {b}"));
+            w.pool.remove(&id);
+        }
+    }
+}
+
+/// A response reaches its replica. It may be stale or a duplicate: refusal is fine, a changed
+/// belief that is not the writer's truth is not.
+pub fn do_deliver(w: &mut World, id: u32) {
+    let Some(Msg::Response { to, proof, wlen, wbytes, concrete }) = w.pool.get(&id).cloned() else { return };
+    if w.nodes[to].core.is_none() {
+        return;
+    }
+    let before = w.nodes[to].model.clone();
+    let call = w.begin_call(to, "verify_and_apply_proof");
+    let g = call_core!(w, to, |core| core.verify_and_apply_proof(&proof).await);
+    let r = Res::from(g);
+    w.logf(|| format!("net deliver #{id} to n{to}: {}", r.brief()));
+    let mut after = before.clone();
+    if proof.upgrade.is_some() {
+        after.length = wlen;
+        after.byte_length = wbytes;
+    }
+    if let Some(b) = &proof.block {
+        after.held.insert(b.index, w.truth.blocks[b.index as usize].clone());
+    }
+    match r {
+        Res::Ok(true) => {
+            w.stats.proofs_accepted += 1;
+            w.nodes[to].model = after;
+            if let Some(b) = &proof.block {
+                w.nodes[to].became.insert(b.index);
+            }
+            w.end_call(call, true);
+            let ev = repl::proof_events(&proof);
+            w.expect_events(to, "accepted proof", &ev);
+        }
+        Res::Ok(false) | Res::Err(..) => {
+            w.end_call(call, false);
+            w.calls[call].after = after;
+            w.stats.probe("stale_or_duplicate_refused");
+            // a stale or duplicated proof may be refused; acceptance of fresh proofs is judged in the
+            // strict arm and during convergence
+            let _ = &concrete;
+            w.expect_events(to, "refused proof", &[]);
+        }
+        Res::Panic(m) | Res::Hang(m) => {
+            w.end_call(call, false);
+            w.calls[call].crashed = true;
+            w.viol("C03.accept", format!("delivery of honest proof #{id} died: {m}"));
+            w.aborted = Some("replica died".into());
+            return;
+        }
+    }
+    // safety: whatever happened, the replica is truthful
+    if w.nodes[to].core.is_some() {
+        w.scan_and_judge_as(to, &format!("after delivery #{id}"), "C03");
+    }
+}
+
+/// Process death of node n. `back` storage operations of its last mutating call are lost.
+pub fn do_crash_restart(w: &mut World, n: usize, back: u32) {
+    if w.nodes[n].core.is_none() {
+        return;
+    }
+    w.stats.probe(if n == 0 { "writer_crash_restart" } else { "replica_crash_restart" });
+    // last call of this node that journalled something
+    let last = w.calls.iter().rposition(|c| c.node as usize == n && c.j1 > c.j0);
+    let jlen = w.nodes[n].disk.journal_len();
+    let (keep, allowed) = match last {
+        Some(ci)
+            if n != 0
+                && back > 0
+                && w.calls[ci].j1 == jlen
+                && w.calls[ci].label == "verify_and_apply_proof" =>
+        {
+            let c = &w.calls[ci];
+            let ops = (c.j1 - c.j0) as u32;
+            let b = (back % (ops + 1)) as usize;
+            if b > 0 {
+                w.stats.probe("crash_mid_call");
+            }
+            (jlen - b, vec![c.before.clone(), c.after.clone()])
+        }
+        _ => (jlen, vec![w.nodes[n].model.clone()]),
+    };
+    let journal = w.nodes[n].disk.lock().journal.clone();
+    let files = disk::materialize(&journal, keep, None);
+    // restart
+    w.nodes[n].rx.clear();
+    let old = w.nodes[n].core.take();
+    let _ = std::panic::catch_unwind(std::panic::AssertUnwindSafe(move || drop(old)));
+    {
+        let mut st = w.nodes[n].disk.lock();
+        st.files = files;
+        st.journal.truncate(keep);
+    }
+    let d = w.nodes[n].disk.clone();
+    let cache = w.cfg.cache;
+    let g = exec::run(async { open_core(&d, None, cache).await });
+    match Res::from(g) {
+        Res::Ok(core) => {
+            let mut core = Some(core);
+            let upto = allowed.iter().map(|m| m.length).max().unwrap_or(0) + 2;
+            let o = crate::crash::observe(&mut core, upto, &w.key.verifying_key());
+            let m = allowed.iter().find(|m| o.died.is_none() && crate::crash::diff(&o, m).is_none()).cloned();
+            match (m, core) {
+                (Some(m), Some(c)) => {
+                    w.nodes[n].model = m;
+                    w.nodes[n].core = Some(c);
+                    w.subscribe(n);
+                    w.logf(|| format!("crash-restart n{n} keep {keep}/{jlen} -> recovered"));
+                }
+                _ => {
+                    // recovery is C02's clause; not judged here
+                    w.aborted = Some("crash recovery did not give a before-or-after state (C02's clause)".into());
+                    w.nodes[n].dead = true;
+                }
+            }
+        }
+        other => {
+            let b = crate::world::brief_unit(&other);
+            w.logf(|| format!("crash-restart n{n} keep {keep}/{jlen}: reopen failed {b}"));
+            w.aborted = Some(format!("reopen after crash failed (C02's clause): {b}"));
+            w.nodes[n].dead = true;
+        }
+    }
+}
+
+/// Faults have stopped. The replicator (harness stub) must complete every replica within
+/// 3*missing + 10 request rounds.
+pub fn do_converge(w: &mut World) {
+    w.pool.clear();
+    for n in 1..w.nodes.len() {
+        if w.nodes[n].core.is_none() || w.aborted.is_some() {
+            continue;
+        }
+        let wanted: Vec<u64> = w.nodes[0].model.held.keys().copied().collect();
+        let missing0 = wanted.iter().filter(|i| !w.nodes[n].model.has(**i)).count() as u64
+            + (w.truth.len() > w.nodes[n].model.length) as u64;
+        let budget = 3 * missing0 + 10;
+        let mut rounds = 0u64;
+        loop {
+            let behind = w.truth.len() > w.nodes[n].model.length;
+            let next = wanted.iter().copied().find(|i| !w.nodes[n].model.has(*i));
+            if !behind && next.is_none() {
+                break;
+            }
+            if rounds >= budget {
+                w.viol(
+                    "C03.liveness",
+                    format!("replica {n} not complete after {rounds} fault-free request rounds (budget {budget}); still missing {:?}, behind {behind}", next),
+                );
+                break;
+            }
+            rounds += 1;
+            let req = Req {
+                block: next,
+                upgrade: if behind { Some(u64::MAX >> 8) } else { None },
+                ..Default::default()
+            };
+            // (u64::MAX>>8) % behind + 1 is some partial length; force full by block beyond or explicit
+            let before = w.viols.len();
+            repl::do_sync(w, n, &req);
+            if w.viols.len() > before || w.aborted.is_some() {
+                break;
+            }
+        }
+        w.stats.probe("converged_replicas");
+        if w.aborted.is_none() && w.nodes[n].core.is_some() {
+            w.scan_and_judge_as(n, "after convergence", "C03");
+            // complete: every block the writer still holds
+            for i in &wanted {
+                if !w.nodes[n].model.has(*i) {
+                    w.viol("C03.liveness", format!("replica {n} ended without block {i}"));
+                    break;
+                }
+            }
+        }
+    }
+}
+
+// ---------------------------------------------------------------------------------------------
+// The discrete-event network simulator that produces the explicit schedule.
+
+#[derive(Clone, Debug)]
+struct Ev {
+    t: u64,
+    seq: u64,
+    step: Step,
+}
+
+/// Generates: initial writer history, then `n_req` requests travelling through a faulty network
+/// interleaved with writer growth, clears, crash-restarts and partitions; then heal + converge.
+pub fn gen_faulty(r: &mut Rng, g: &mut crate::gen::G, replicas: u8, n_req: u32) -> Vec<Step> {
+    let mut q: Vec<Ev> = vec![];
+    let mut seq = 0u64;
+    let mut push = |q: &mut Vec<Ev>, t: u64, step: Step| {
+        seq += 1;
+        q.push(Ev { t, seq, step });
+    };
+    let drop_pct = *r.pick(&[0u64, 5, 15, 30]);
+    let dup_pct = *r.pick(&[0u64, 5, 20]);
+    let jitter = *r.pick(&[0u64, 3, 20, 100]);
+    let mut counts: std::collections::BTreeMap<&'static str, u64> = Default::default();
+    // initial log
+    let k = r.range(1, 8);
+    let blks: Vec<crate::model::Blk> = (0..k).map(|_| g.blk(r)).collect();
+    g.len += k;
+    push(&mut q, 0, Step::Batch { n: 0, blks });
+    // partitions: per replica windows during which nothing crosses
+    let horizon = n_req as u64 * 10 + 50;
+    let mut parts: Vec<(u8, u64, u64)> = vec![];
+    for rep in 1..=replicas {
+        if r.chance(1, 3) {
+            let a = r.below(horizon);
+            let b = a + r.range(5, 80);
+            parts.push((rep, a, b));
+            *counts.entry("net_partition").or_insert(0) += 1;
+        }
+    }
+    let in_partition = |rep: u8, t: u64| parts.iter().any(|(p, a, b)| *p == rep && t >= *a && t < *b);
+    let mut t = 1u64;
+    for id in 0..n_req {
+        t += r.range(1, 12);
+        // background activity
+        match r.below(12) {
+            0 | 1 => {
+                let blk = g.blk(r);
+                g.len += 1;
+                push(&mut q, t, Step::Append { n: 0, blk });
+            }
+            2 => {
+                let (s, e) = g.clear_range(r);
+                push(&mut q, t, Step::Clear { n: 0, start: s, end: e.min(g.len + 1) });
+            }
+            3 => {
+                let n = r.range(1, replicas as u64) as u8;
+                push(&mut q, t, Step::CrashRestart { n, back: r.below(6) as u32 });
+            }
+            4 if r.chance(1, 3) => push(&mut q, t, Step::CrashRestart { n: 0, back: 0 }),
+            5 => {
+                let n = r.range(1, replicas as u64) as u8;
+                push(&mut q, t, Step::Reopen { n });
+            }
+            _ => {}
+        }
+        let to = r.range(1, replicas as u64) as u8;
+        let req = crate::gen::rand_req(r);
+        push(&mut q, t, Step::NetSend { id, to, req });
+        // request leg
+        let l1 = 1 + r.below(jitter + 1);
+        if r.below(100) < drop_pct || in_partition(to, t + l1) {
+            *counts.entry("net_drop_request").or_insert(0) += 1;
+            continue;
+        }
+        let ts = t + l1;
+        push(&mut q, ts, Step::NetServe { id });
+        // response leg
+        let l2 = 1 + r.below(jitter + 1);
+        if r.below(100) < drop_pct || in_partition(to, ts + l2) {
+            *counts.entry("net_drop_response").or_insert(0) += 1;
+            continue;
+        }
+        push(&mut q, ts + l2, Step::NetDeliver { id });
+        if l1 + l2 > 12 {
+            *counts.entry("net_delay").or_insert(0) += 1;
+        }
+        if r.below(100) < dup_pct {
+            *counts.entry("net_duplicate").or_insert(0) += 1;
+            push(&mut q, ts + l2 + r.range(1, 40), Step::NetDeliver { id });
+        }
+    }
+    q.sort_by_key(|e| (e.t, e.seq));
+    // reorder measure: deliveries not in id order
+    let mut last = 0u32;
+    for e in &q {
+        if let Step::NetDeliver { id } = e.step {
+            if id < last {
+                *counts.entry("net_reorder").or_insert(0) += 1;
+            }
+            last = last.max(id);
+        }
+    }
+    let end = q.last().map(|e| e.t).unwrap_or(0);
+    let mut steps: Vec<Step> = q.into_iter().map(|e| e.step).collect();
+    for (k, v) in counts {
+        steps.push(Step::Note { what: k.to_string(), v });
+    }
+    steps.push(Step::Note { what: "sim_time".into(), v: end });
+    steps.push(Step::Converge);
+    steps
 }
